@@ -861,13 +861,14 @@ def idsAfterConvert (s : MState) (v nv : Nat) (move : Bool) (i : Nat) : Option S
     (if i = v then none else if i = nv then cmetaOf s v else cmetaOf s i)
   else cmetaOf s i
 
+def convertBody (s : MState) (v : Nat) (move : Bool) (base : String) (f : MState → Nat → String) (ds : List Nat) : MState :=
+  ds.foldl (fun s d => addUnique s (f s d)) (convertMover (addUnique s base) v s.heap.length move)
+
 theorem convertBody_effect {s : MState} (h : Inv s) {v : Nat} (hv : v ∈ s.live) (move : Bool) (base : String)
     (f : MState → Nat → String) (ds : List Nat) :
-    let s3 := ds.foldl (fun s d => addUnique s (f s d)) (convertMover (addUnique s base) v s.heap.length move)
-    s3.modelCmeta = s.modelCmeta ∧
-    (∃ extra, s3.live = s.live ++ s.heap.length :: extra ∧ ∀ i ∈ extra, s.heap.length < i) ∧
-    (∀ i, cmetaOf s3 i = idsAfterConvert s v s.heap.length move i) := by
-  intro s3
+    (convertBody s v move base f ds).modelCmeta = s.modelCmeta ∧
+    (∃ extra, (convertBody s v move base f ds).live = s.live ++ s.heap.length :: extra ∧ ∀ i ∈ extra, s.heap.length < i) ∧
+    (∀ i, cmetaOf (convertBody s v move base f ds) i = idsAfterConvert s v s.heap.length move i) := by
   obtain ⟨e1, e2, e3, e4⟩ := addUnique_effect s base
   have h1 : Inv (addUnique s base) := inv_addUnique h base
   have hv1 : v ∈ (addUnique s base).live := by rw [e1]; exact List.mem_append_left _ hv
@@ -891,7 +892,8 @@ theorem convertBody_effect {s : MState} (h : Inv s) {v : Nat} (hv : v ∈ s.live
         have hcs : cmetaOf s v = some c := by rw [← e4]; exact hc
         refine ⟨t2, t3, by rw [t4, e3], ?_⟩
         intro i
-        rw [t5 i, if_pos ⟨hm1, by rw [hcs]; rfl⟩, hcs, e4]
+        have hcond : move = true ∧ (cmetaOf s v).isSome = true := ⟨hm1, by rw [hcs]; rfl⟩
+        rw [t5 i, if_pos hcond, hcs, e4]
     · rw [if_neg hm]
       refine ⟨rfl, rfl, e3, ?_⟩
       intro i
@@ -903,15 +905,14 @@ theorem convertBody_effect {s : MState} (h : Inv s) {v : Nat} (hv : v ∈ s.live
       exact ⟨hm1, by rw [e4]; exact hm2⟩
   obtain ⟨m1, m2, m3, m4⟩ := hmv
   obtain ⟨⟨extra, hx, hge⟩, _, fm, fc⟩ := foldl_addUnique_effect f ds (convertMover (addUnique s base) v s.heap.length move)
+  unfold convertBody
   refine ⟨by rw [fm, m3], ⟨extra, ?_, ?_⟩, ?_⟩
-  · show (ds.foldl _ _).live = _
-    rw [hx, m1, e1]; simp
+  · rw [hx, m1, e1]; simp
   · intro i hi
     have := hge i hi
     rw [m2, e2] at this
     omega
   · intro i
-    show cmetaOf (ds.foldl _ _) i = _
     rw [fc, m4]
 
 theorem convertVariable_effect {a : AState} (h : Inv a.m) {v : Nat} (hv : v ∈ a.m.live) (move : Bool) {k : ConvKind}
@@ -929,11 +930,11 @@ theorem convertVariable_effect {a : AState} (h : Inv a.m) {v : Nat} (hv : v ∈ 
   | output =>
     obtain ⟨b1, b2, b3⟩ := convertBody_effect h hv move (nameOfVar a.m v ++ "_converted")
       (fun s d => nameOfVar s d ++ "_orig_deriv") ConvKind.output.derivs
-    exact ⟨rfl, rfl, b1, b2, b3⟩
+    exact ⟨by first | rfl | trivial, by first | rfl | trivial, b1, b2, b3⟩
   | input ds =>
     obtain ⟨b1, b2, b3⟩ := convertBody_effect h hv move (nameOfVar a.m v ++ "_converted")
       (fun s d => nameOfVar s d ++ "_orig_deriv") (ConvKind.input ds).derivs
-    exact ⟨rfl, rfl, b1, b2, b3⟩
+    exact ⟨by first | rfl | trivial, by first | rfl | trivial, b1, b2, b3⟩
 
 /-- `same` (conversion factor 1, or DimensionalityError) and calls on variables outside the model change nothing -/
 theorem convertVariable_noop {a : AState} {v : Nat} {move : Bool} {k : ConvKind} (h : v ∉ a.m.live ∨ k = .same) :
